@@ -165,8 +165,8 @@ package xmss
 // base-w digit i-len1 of toByte(csum << (8 - (len2*lg w) % 8), ceil(len2*lg w / 8)) otherwise (for the three parameter
 // sets the shift is 4, 6, 8 for lg w = 4, 2, 8 and the byte count is 2: wShift / wBytes); chain i runs from the
 // digit to w-1 under the address with chain word i.
-//@ pred wShift(p) := 8 - ((p.len2 * p.logW) % 8)
-//@ pred wBytes(p) := (p.len2 * p.logW + 7) / 8
+//@ pred wShift(p) := spec.wshiftOf(p.logW)
+//@ pred wBytes(p) := 2
 //@ pred wCsum(msg, p) := spec.wshift(spec.wsum(msg, p.len1, p.logW, p.w), wShift(p))
 //@ pred wDigit(msg, p, i) := spec.wdig(msg, i, p.logW, p.w, p.len1, wShift(p), wBytes(p))
 //@ lemma xmss.L_chain_cong[XF] induction k uses xmss.L_randF_cong : forall k, hf, PS:arr, A1:arr, A2:arr, X:arr, s :: (forall w_ :: 0 <= w_ && w_ < 6 ==> A1[w_] == A2[w_]) ==> spec.chain(hf, PS, A1, X, s, k) == spec.chain(hf, PS, A2, X, s, k)
@@ -181,7 +181,7 @@ package xmss
 //@   ensures forall k_ :: 0 <= k_ && k_ < 5 ==> addr[k_] == old(addr[k_])
 //@   ensures[XF] hashfunction <= 2 ==> forall i_, q_ :: 0 <= i_ && i_ < wotsParams.len && 0 <= q_ && q_ < 32 ==> pk[32*i_+q_] == wpkNode(hashfunction, pubSeed, arr(old(addr)), sig, msg, wotsParams, i_)[q_]
 //@   exit[XF] hashfunction <= 2 ==> forall i_, q_ :: 0 <= i_ && i_ < wotsParams.len && 0 <= q_ && q_ < 32 ==> pk[32*i_+q_] == wpkNode(hashfunction, pubSeed, arr(old(addr)), sig, msg, wotsParams, i_)[q_]
-//@   ensures[XF] hashfunction <= 2 ==> forall A2:arr :: (forall w_ :: 0 <= w_ && w_ < 5 ==> A2[w_] == old(addr[w_])) ==> forall i_, q_ :: 0 <= i_ && i_ < wotsParams.len && 0 <= q_ && q_ < 32 ==> pk[32*i_+q_] == wpkNode(hashfunction, pubSeed, A2, sig, msg, wotsParams, i_)[q_]
+//@   ensures[C04] hashfunction <= 2 ==> forall A2:arr :: (forall w_ :: 0 <= w_ && w_ < 5 ==> A2[w_] == old(addr[w_])) ==> forall i_, q_ :: 0 <= i_ && i_ < wotsParams.len && 0 <= q_ && q_ < 32 ==> pk[32*i_+q_] == wpkNode(hashfunction, pubSeed, A2, sig, msg, wotsParams, i_)[q_]
 //@   assigns pk, *addr
 //@   after misc.ToByteLittleEndian 1 assert[XF] forall d_ :: 0 <= d_ && d_ < wBytes(wotsParams) ==> cSumBytes[d_] == spec.toByteN(wCsum(msg, wotsParams), wBytes(wotsParams))[d_]
 //@   after xmss.CalcBaseW 2 assert[XF] forall k_ :: 0 <= k_ && k_ < XMSSWOTSLEN2 ==> cSumBaseW[k_] == spec.bwdig(spec.toByteN(wCsum(msg, wotsParams), wBytes(wotsParams)), 0, k_, XMSSWOTSLOGW)
@@ -219,7 +219,7 @@ package xmss
 //@   ensures forall k_ :: 0 <= k_ && k_ < 5 ==> addr[k_] == old(addr[k_])
 //@   exit[XF] hashFunction <= 2 ==> forall q_ :: 0 <= q_ && q_ < 32 ==> leaf[q_] == spec.lnode(hashFunction, spec.sub(pubSeed, 32), arr(old(addr)), old(wotsPK), params.len, ltreeT(params.len), 0)[q_]
 //@   ensures[XF] hashFunction <= 2 ==> forall q_ :: 0 <= q_ && q_ < 32 ==> leaf[q_] == spec.lnode(hashFunction, spec.sub(pubSeed, 32), arr(old(addr)), old(wotsPK), params.len, ltreeT(params.len), 0)[q_]
-//@   ensures[XF] hashFunction <= 2 ==> forall A2:arr, PK2:arr, o2 :: (forall w_ :: 0 <= w_ && w_ < 5 ==> A2[w_] == old(addr[w_])) && (forall p_ :: 0 <= p_ && p_ < 32*params.len ==> old(wotsPK[p_]) == PK2[p_ + o2]) ==> forall q_ :: 0 <= q_ && q_ < 32 ==> leaf[q_] == spec.lnode(hashFunction, spec.sub(pubSeed, 32), A2, PK2, o2, params.len, ltreeT(params.len), 0)[q_]
+//@   ensures[C04] hashFunction <= 2 ==> forall A2:arr, PK2:arr, o2 :: (forall w_ :: 0 <= w_ && w_ < 5 ==> A2[w_] == old(addr[w_])) && (forall p_ :: 0 <= p_ && p_ < 32*params.len ==> old(wotsPK[p_]) == PK2[p_ + o2]) ==> forall q_ :: 0 <= q_ && q_ < 32 ==> leaf[q_] == spec.lnode(hashFunction, spec.sub(pubSeed, 32), A2, PK2, o2, params.len, ltreeT(params.len), 0)[q_]
 //@   assigns leaf[0:32], wotsPK, *addr
 //@   loop 1 invariant 1 <= l && l <= params.len && n == 32 && forall k_ :: 0 <= k_ && k_ < 5 ==> addr[k_] == old(addr[k_])
 //@   loop 1 invariant ltab(params.len, height, l)
@@ -249,7 +249,7 @@ package xmss
 //@   ensures forall k_ :: 0 <= k_ && k_ < 5 ==> addr[k_] == old(addr[k_])
 //@   exit[XF] hashFunc <= 2 ==> bufIs(root, 0, spec.foldTop(hashFunc, spec.sub(pub_seed, 32), arr(old(addr)), spec.sub(old(leaf), 32), old(leafIdx), authpath, h))
 //@   ensures[XF] hashFunc <= 2 ==> bufIs(root, 0, spec.foldTop(hashFunc, spec.sub(pub_seed, 32), arr(old(addr)), spec.sub(old(leaf), 32), old(leafIdx), authpath, h))
-//@   ensures[XF] hashFunc <= 2 ==> forall A2:arr, L2:arr :: (forall w_ :: 0 <= w_ && w_ < 5 ==> A2[w_] == old(addr[w_])) && (forall q_ :: 0 <= q_ && q_ < 32 ==> L2[q_] == old(leaf[q_])) ==> bufIs(root, 0, spec.foldTop(hashFunc, spec.sub(pub_seed, 32), A2, L2, old(leafIdx), authpath, h))
+//@   ensures[C04] hashFunc <= 2 ==> forall A2:arr, L2:arr :: (forall w_ :: 0 <= w_ && w_ < 5 ==> A2[w_] == old(addr[w_])) && (forall q_ :: 0 <= q_ && q_ < 32 ==> L2[q_] == old(leaf[q_])) ==> bufIs(root, 0, spec.foldTop(hashFunc, spec.sub(pub_seed, 32), A2, L2, old(leafIdx), authpath, h))
 //@   assigns root[0:32], *addr
 //@   loop 1 invariant 0 <= j && j <= n && forall q_ :: 0 <= q_ && q_ < j ==> buffer[32+q_] == leaf[q_]
 //@   loop 2 invariant 0 <= j && j <= n && (forall q_ :: 0 <= q_ && q_ < 32 ==> buffer[32+q_] == leaf[q_]) && forall q_ :: 0 <= q_ && q_ < j ==> buffer[q_] == authpath[q_]
@@ -418,21 +418,47 @@ package xmss
 //@   loop 1 invariant 0 <= i && i <= len
 //@   loop 1 invariant[XF] hashFunction <= 2 ==> forall i_, q :: 0 <= i_ && i_ < i && 0 <= q && q < 32 ==> outSeeds[32*i_+q] == spec.prfArr(hashFunction, spec.sub(inSeeds, 32), spec.toByte32(i_))[q]
 
+//@ lemma xmss.L_chain_congX[XF] induction k uses xmss.L_randF_cong : forall k, hf, PS:arr, A:arr, X1:arr, X2:arr, s :: (forall d_ :: 0 <= d_ && d_ < 32 ==> X1[d_] == X2[d_]) ==> forall q_ :: 0 <= q_ && q_ < 32 ==> spec.chain(hf, PS, A, X1, s, k)[q_] == spec.chain(hf, PS, A, X2, s, k)[q_]
+// Chains compose: b further steps after a steps are a+b steps (the WOTS+ verification identity).
+//@ lemma xmss.L_chain_compose[XF] induction b : forall b, hf, PS:arr, A:arr, X:arr, s, a :: a >= 0 && s >= 0 ==> spec.chain(hf, PS, A, spec.chain(hf, PS, A, X, s, a), s + a, b) == spec.chainS(hf, PS, A, X, s, a + b)
+//@ pred wsigN(hf, pubSeed, A, sk, msg, p, i) := spec.wsigNode(hf, spec.sub(pubSeed, 32), A, sk, msg, p.logW, p.w, p.len1, wShift(p), wBytes(p), i)
 //@ func wotsSign
+//@   use xmss.L_chain_cong
+//@   hide spec.chain
 //@   requires wotsOK(params) && len(sig) >= params.keySize && len(msg) >= 32 && len(sk) >= 32 && len(pubSeed) >= 32
 //@   ensures forall k_ :: 0 <= k_ && k_ < 5 ==> addr[k_] == old(addr[k_])
+//@   ensures[XF] hashFunction <= 2 ==> forall i_, q_ :: 0 <= i_ && i_ < params.len && 0 <= q_ && q_ < 32 ==> sig[32*i_+q_] == wsigN(hashFunction, pubSeed, arr(old(addr)), sk, msg, params, i_)[q_]
 //@   assigns sig, *addr
+//@   after misc.ToByteLittleEndian 1 assert[XF] forall d_ :: 0 <= d_ && d_ < wBytes(params) ==> cSumBytes[d_] == spec.toByteN(wCsum(msg, params), wBytes(params))[d_]
+//@   after xmss.CalcBaseW 2 assert[XF] forall k_ :: 0 <= k_ && k_ < params.len2 ==> cSumBaseW[k_] == spec.bwdig(spec.toByteN(wCsum(msg, params), wBytes(params)), 0, k_, params.logW)
+//@   after xmss.expandSeed 1 assert[XF] hashFunction <= 2 ==> forall i_, q_ :: 0 <= i_ && i_ < params.len && 0 <= q_ && q_ < 32 ==> sig[32*i_+q_] == spec.prfArr(hashFunction, spec.sub(sk, 32), spec.toByte32(i_))[q_]
 //@   loop 1 invariant 0 <= i && i <= params.len1
+//@   loop 1 invariant[XF] csum == spec.wsum(msg, i, params.logW, params.w) && csum <= i * (params.w - 1)
 //@   loop 2 invariant 0 <= i && i <= params.len2
 //@   loop 2 invariant forall k_ :: 0 <= k_ && k_ < params.len1 + i ==> baseW[k_] <= params.w - 1
+//@   loop 2 invariant[XF] forall k_ :: 0 <= k_ && k_ < params.len1 + i ==> baseW[k_] == wDigit(msg, params, k_)
 //@   loop 3 invariant 0 <= i && i <= params.len && forall k_ :: 0 <= k_ && k_ < 5 ==> addr[k_] == old(addr[k_])
 //@   loop 3 invariant forall k_ :: 0 <= k_ && k_ < params.len ==> baseW[k_] <= params.w - 1
+//@   loop 3 invariant[XF] forall k_ :: 0 <= k_ && k_ < params.len ==> baseW[k_] == wDigit(msg, params, k_)
+//@   loop 3 invariant[XF] hashFunction <= 2 ==> forall i_, q_ :: i <= i_ && i_ < params.len && 0 <= q_ && q_ < 32 ==> sig[32*i_+q_] == spec.prfArr(hashFunction, spec.sub(sk, 32), spec.toByte32(i_))[q_]
+//@   loop 3 assert[XF] offset == 32*i && params.n == 32
+//@   loop 3 assert[XF] hashFunction <= 2 ==> forall q_ :: 0 <= q_ && q_ < 32 ==> sig[32*i+q_] == wsigN(hashFunction, pubSeed, arr(old(addr)), sk, msg, params, i)[q_]
+//@   loop 3 invariant[XF] hashFunction <= 2 ==> forall i_, q_ :: 0 <= i_ && i_ < i && 0 <= q_ && q_ < 32 ==> sig[32*i_+q_] == wsigN(hashFunction, pubSeed, arr(old(addr)), sk, msg, params, i_)[q_]
 
+//@ pred wgenN(hf, pubSeed, A, sk, p, i) := spec.wgenNode(hf, spec.sub(pubSeed, 32), A, sk, p.w, i)
 //@ func wOTSPKGen
+//@   use xmss.L_chain_cong
+//@   hide spec.chain
 //@   requires wotsOK(wOTSParams) && len(pk) >= wOTSParams.keySize && len(sk) >= 32 && len(pubSeed) >= 32
 //@   ensures forall k_ :: 0 <= k_ && k_ < 5 ==> addr[k_] == old(addr[k_])
+//@   ensures[XF] hashFunction <= 2 ==> forall i_, q_ :: 0 <= i_ && i_ < wOTSParams.len && 0 <= q_ && q_ < 32 ==> pk[32*i_+q_] == wgenN(hashFunction, pubSeed, arr(old(addr)), sk, wOTSParams, i_)[q_]
 //@   assigns pk, *addr
+//@   after xmss.expandSeed 1 assert[XF] hashFunction <= 2 ==> forall i_, q_ :: 0 <= i_ && i_ < wOTSParams.len && 0 <= q_ && q_ < 32 ==> pk[32*i_+q_] == spec.prfArr(hashFunction, spec.sub(sk, 32), spec.toByte32(i_))[q_]
 //@   loop 1 invariant 0 <= i && i <= wOTSParams.len && forall k_ :: 0 <= k_ && k_ < 5 ==> addr[k_] == old(addr[k_])
+//@   loop 1 invariant[XF] hashFunction <= 2 ==> forall i_, q_ :: i <= i_ && i_ < wOTSParams.len && 0 <= q_ && q_ < 32 ==> pk[32*i_+q_] == spec.prfArr(hashFunction, spec.sub(sk, 32), spec.toByte32(i_))[q_]
+//@   loop 1 assert[XF] pkStartOffset == 32*i && wOTSParams.n == 32
+//@   loop 1 assert[XF] hashFunction <= 2 ==> forall q_ :: 0 <= q_ && q_ < 32 ==> pk[32*i+q_] == wgenN(hashFunction, pubSeed, arr(old(addr)), sk, wOTSParams, i)[q_]
+//@   loop 1 invariant[XF] hashFunction <= 2 ==> forall i_, q_ :: 0 <= i_ && i_ < i && 0 <= q_ && q_ < 32 ==> pk[32*i_+q_] == wgenN(hashFunction, pubSeed, arr(old(addr)), sk, wOTSParams, i_)[q_]
 
 //@ func genLeafWOTS
 //@   requires xmssParams.n == 32 && wotsOK(xmssParams.wotsParams) && len(leaf) >= 32 && len(skSeed) >= 32 && len(pubSeed) >= 32
@@ -573,3 +599,25 @@ package xmss
 //@   assigns sk[0:4], bdsAll(bds)
 
 // ---- C04: what Verify accepts ----
+
+// ---- C01X (parked, not claimed): WOTS+ sign-then-recover identity as a lemma function.  The callee contracts (wotsSign,
+// wotsPKFromSig, wOTSPKGen) and the lemmas L_chain_compose / L_chain_congX are discharged; the composition below is
+// written but the solvers do not find the instantiations reliably (triggers with arithmetic indices), so it carries a
+// tag that no property claims.
+//@ func verifLemmaWotsSignThenRecover
+//@   props C01X
+//@   use xmss.L_chain_compose
+//@   use xmss.L_chain_congX
+//@   hide spec.chain
+//@   requires wotsOK(params) && len(msg) >= 32 && len(sk) >= 32 && len(pubSeed) >= 32
+//@   after xmss.wOTSPKGen 1 assert[C01X] hashFunction <= 2 ==> forall i_, q_ :: 0 <= i_ && i_ < params.len && 0 <= q_ && q_ < 32 ==> sig[32*i_+q_] == wsigN(hashFunction, pubSeed, arr(addr), sk, msg, params, i_)[q_]
+//@   after xmss.wOTSPKGen 1 assert[C01X] hashFunction <= 2 ==> forall i_, q_ :: 0 <= i_ && i_ < params.len && 0 <= q_ && q_ < 32 ==> pkFromSig[32*i_+q_] == wpkNode(hashFunction, pubSeed, arr(addr), sig, msg, params, i_)[q_]
+//@   after xmss.wOTSPKGen 1 assert[C01X] hashFunction <= 2 ==> forall i_, q_ :: 0 <= i_ && i_ < params.len && 0 <= q_ && q_ < 32 ==> pkGen[32*i_+q_] == wgenN(hashFunction, pubSeed, arr(addr), sk, params, i_)[q_]
+//@   after xmss.wOTSPKGen 1 assert[C01X] hashFunction <= 2 ==> forall i_ :: 0 <= i_ && i_ < params.len ==> 0 <= wDigit(msg, params, i_) && wDigit(msg, params, i_) <= params.w - 1
+//@   after xmss.wOTSPKGen 1 assert[C01X] hashFunction <= 2 ==> forall i_, q_ :: 0 <= i_ && i_ < params.len && 0 <= q_ && q_ < 32 ==> sig[32*i_+q_] == spec.chain(hashFunction, spec.sub(pubSeed, 32), store(arr(addr), 5, i_), spec.prfArr(hashFunction, spec.sub(sk, 32), spec.toByte32(i_)), 0, wDigit(msg, params, i_))[q_] from 1..1
+//@   after xmss.wOTSPKGen 1 assert[C01X] hashFunction <= 2 ==> forall i_, q_ :: 0 <= i_ && i_ < params.len && 0 <= q_ && q_ < 32 ==> spec.sub(sig[32*i_:], 32)[q_] == spec.chain(hashFunction, spec.sub(pubSeed, 32), store(arr(addr), 5, i_), spec.prfArr(hashFunction, spec.sub(sk, 32), spec.toByte32(i_)), 0, wDigit(msg, params, i_))[q_] from 5..5
+//@   after xmss.wOTSPKGen 1 assert[C01X] hashFunction <= 2 ==> forall i_, q_ :: 0 <= i_ && i_ < params.len && 0 <= q_ && q_ < 32 ==> pkFromSig[32*i_+q_] == spec.chain(hashFunction, spec.sub(pubSeed, 32), store(arr(addr), 5, i_), spec.sub(sig[32*i_:], 32), wDigit(msg, params, i_), params.w - 1 - wDigit(msg, params, i_))[q_] from 2..2
+//@   after xmss.wOTSPKGen 1 assert[C01X] hashFunction <= 2 ==> forall i_, q_ :: 0 <= i_ && i_ < params.len && 0 <= q_ && q_ < 32 ==> pkFromSig[32*i_+q_] == spec.chain(hashFunction, spec.sub(pubSeed, 32), store(arr(addr), 5, i_), spec.chain(hashFunction, spec.sub(pubSeed, 32), store(arr(addr), 5, i_), spec.prfArr(hashFunction, spec.sub(sk, 32), spec.toByte32(i_)), 0, wDigit(msg, params, i_)), wDigit(msg, params, i_), params.w - 1 - wDigit(msg, params, i_))[q_] from 6..7
+//@   after xmss.wOTSPKGen 1 assert[C01X] hashFunction <= 2 ==> forall i_, q_ :: 0 <= i_ && i_ < params.len && 0 <= q_ && q_ < 32 ==> pkFromSig[32*i_+q_] == spec.chain(hashFunction, spec.sub(pubSeed, 32), store(arr(addr), 5, i_), spec.prfArr(hashFunction, spec.sub(sk, 32), spec.toByte32(i_)), 0, params.w - 1)[q_] from 4..8
+//@   after xmss.wOTSPKGen 1 assert[C01X] hashFunction <= 2 ==> forall i_, q_ :: 0 <= i_ && i_ < params.len && 0 <= q_ && q_ < 32 ==> pkGen[32*i_+q_] == spec.chain(hashFunction, spec.sub(pubSeed, 32), store(arr(addr), 5, i_), spec.prfArr(hashFunction, spec.sub(sk, 32), spec.toByte32(i_)), 0, params.w - 1)[q_] from 3..3
+//@   ensures[C01X] hashFunction <= 2 ==> len(pkFromSig) == params.keySize && len(pkGen) == params.keySize && forall i_, q_ :: 0 <= i_ && i_ < params.len && 0 <= q_ && q_ < 32 ==> pkFromSig[32*i_+q_] == pkGen[32*i_+q_]
